@@ -302,7 +302,9 @@ def classify_hang(exe, d, case):
         lo, hi = int(m.group(1), 16), int(m.group(2), 16)
         if hi >= lo and hi - lo > SPAN_LIMIT:
             return [("withheld", "cpu_span", "image spans more than 64 KiB")]
-    return [("viol", "hang/cmd/%s/%s" % (cpu, case["ccls"]), "no termination within %d CPU-s although the image and every requested range span <= 64 KiB" % CPU_S)]
+    if m and max(lo, hi) >= 0xffff0000:
+        cpu = "high-address"
+    return [("viol", "hang/cmd/%s/%s" % (case["ccls"], cpu), "no termination within %d CPU-s although the image and every requested range span <= 64 KiB" % CPU_S)]
 
 
 # ------------------------------------------------------------------ generation
@@ -346,6 +348,10 @@ def gen_cases(run, seeds):
 
     def pick_cpu(pn, p_native=0.5):
         r = rng.random()
+        if quick:
+            # the quick tier keeps to the program's own cpu (or none): which foreign decoder stalls on which garbage is
+            # seed-dependent and is explored (and catalogued) by the thorough tier and the enumerated all-cpu sweep
+            return pn if r < 0.8 else None
         if r < p_native:
             return pn
         if r < p_native + 0.1:
@@ -358,7 +364,7 @@ def gen_cases(run, seeds):
         data = seeds[(pn, t)]
         for cpu in ([pn, None] + (UTIL_CPUS if (not quick or (pn, t) in (("msp430", "hex"), ("68000", "elf"))) else [])):
             add(t, pn, data, "valid", "disasm", cpu)
-        for i in range(2 if quick else 12):
+        for i in range(1 if quick else 8):
             add(t, pn, data, "valid", rng.choice(["session", "opts", "disasm_range"]), pick_cpu(pn, 0.7))
         add(t, pn, data, "valid", "session", pn, bulk=True)
     # sessions without a file, per cpu
@@ -373,34 +379,34 @@ def gen_cases(run, seeds):
         if t in ("hex", "srec", "txt"):
             muts = list(text_mutations(t, data))
             if quick:
-                muts = rng.sample(muts, min(len(muts), 50 if pn == "msp430" else 12))
+                muts = rng.sample(muts, min(len(muts), 30 if pn == "msp430" else 6))
             for label, li, new in muts:
                 add(t, pn, new, label, rng.choice(kinds), pick_cpu(pn), region=li // 4)
         else:
             if quick:
                 muts = list(field_mutations(data))
-                muts = rng.sample(muts, min(len(muts), 110 if pn in ("msp430", "mips") else 25))
+                muts = rng.sample(muts, min(len(muts), 40 if pn in ("msp430", "mips") else 8))
             elif pn in ("msp430", "mips") and t != "bin":
                 muts = list(field_mutations(data))
-                if len(muts) > 9000:
-                    muts = rng.sample(muts, 9000)
+                if len(muts) > 3000:
+                    muts = rng.sample(muts, 3000)
             else:
                 muts = list(field_mutations(data))
-                muts = rng.sample(muts, min(len(muts), 400))
+                muts = rng.sample(muts, min(len(muts), 200))
             for label, off, new in muts:
                 add(t, pn, new, label, rng.choice(kinds), pick_cpu(pn), region=off // 64)
         # truncation
         n = len(data)
-        cuts = range(0, n) if (not quick and n <= 1200) else sorted(set(rng.randrange(n) for _ in range(12 if quick else 300)))
+        cuts = range(0, n) if (not quick and n <= 400) else sorted(set(rng.randrange(n) for _ in range(4 if quick else 100)))
         for cut in cuts:
             add(t, pn, data[:cut], "truncate", rng.choice(["disasm", "session"]), pick_cpu(pn), region=cut // 64)
         # random byte edits / garbage with the right extension
-        for i in range(6 if quick else 150):
+        for i in range(3 if quick else 60):
             b = bytearray(data.encode("latin-1"))
             for _k in range(rng.choice([1, 2, 4, 16])):
                 b[rng.randrange(len(b))] = rng.randrange(256)
             add(t, pn, b.decode("latin-1"), "bytes", rng.choice(kinds), pick_cpu(pn), region=99)
-        for i in range(2 if quick else 20):
+        for i in range(1 if quick else 10):
             g = bytes(rng.getrandbits(8) for _ in range(rng.choice([1, 4, 16, 64, 600]))).decode("latin-1")
             add(t, pn, data[:rng.choice([0, 4, 8, 16, 52])] + g, "garbage", rng.choice(kinds), pick_cpu(pn), region=98)
     # odd command lines
@@ -420,8 +426,16 @@ def gen_cases(run, seeds):
     return cases
 
 
+THOROUGH = [False]
+
+
 def hang_class(c):
-    return (c["fmt"], c["mcls"].split("/")[0], c.get("cpu") or "none", c["ccls"], c.get("region", 0) if c["mcls"] != "valid" else 0)
+    """a-priori class used to stop re-running inputs that burn the whole CPU budget"""
+    if c["mcls"] == "valid":
+        return (c["fmt"], "valid", c.get("cpu") or "none", c["ccls"])
+    if THOROUGH[0]:
+        return (c["fmt"], c["mcls"].split("/")[0], c["ccls"], c.get("region", 0) // 4)
+    return (c["fmt"], c["mcls"].split("/")[0], c["ccls"])
 
 
 # ------------------------------------------------------------------ main
@@ -470,6 +484,7 @@ def main(run):
     cases = gen_cases(run, seeds)
     random.Random(run.seed).shuffle(cases)
     hangs = {}
+    THOROUGH[0] = run.tier != "quick"
     nround = 10 if run.tier == "quick" else 40
     size = (len(cases) + nround - 1) // nround
     for i in range(0, len(cases), size):
@@ -489,7 +504,7 @@ def main(run):
         "'run', 'call' and '-run' are not issued: a simulated program may legitimately never stop",
         "the hang verdict (3 CPU-s) is withheld when a command names a range above 64 KiB or the loaded image spans more than 64 KiB; a case over "
         "budget is re-run without -disasm and with an empty session to tell loader hangs from command hangs",
-        "after 3 over-budget cases of one (format, mutation class, cpu, command class, 64-byte file region) further cases of that class are skipped and counted",
+        "after 3 over-budget cases of one (format, mutation class, command class[, 256-byte file region in the thorough tier]) further cases of that class are skipped and counted",
         "hang keys are per format (loader) or per cpu and command class; sanitizer keys are kind/function/file (line numbers stripped)",
         ".o/.a import parsers are only reachable through naken_asm and are exercised by C16's odd command lines",
     ]
